@@ -2608,3 +2608,46 @@ def opt_insert(ex, m, a, fr, dest):
         o = some(ex.call_closure(a[1], []))
         r.set(o)
     return Ref(o.fields, 0, True)
+
+
+@model(r'(?:std::option::)?Option::<.*>::replace')
+def opt_replace(ex, m, a, fr, dest):
+    r = a[0]
+    o = r.get()
+    r.set(some(a[1]))
+    return o
+
+
+@model(r'(?:core::bool::)?<impl bool>::then_some::<.*>')
+def bool_then_some(ex, m, a, fr, dest):
+    return some(a[1]) if ex.branch(a[0], 'then_some') else none()
+
+
+@model(r'(?:core::bool::)?<impl bool>::then::<.*>')
+def bool_then(ex, m, a, fr, dest):
+    return some(ex.call_closure(a[1], [])) if ex.branch(a[0], 'then') else none()
+
+
+@model(r'(?:std::option::)?Option::<.*>::(unwrap_unchecked)')
+def opt_unwrap_unchecked(ex, m, a, fr, dest):
+    return a[0].fields[0]
+
+
+@model(r'(?:std::option::)?Option::<.*>::inspect::<.*>')
+def opt_inspect(ex, m, a, fr, dest):
+    o = a[0]
+    if o.variant == 1:
+        ex.call_closure(a[1], [Ref(o.fields, 0)])
+    return o
+
+
+@model(r'(?:std::option::)?Option::<.*>::(and)::<.*>')
+def opt_and(ex, m, a, fr, dest):
+    return a[1] if a[0].variant == 1 else none()
+
+
+@model(r'<(?:std::collections::)?VecDeque<.*> as From<\[.*; \d+\]>>::from|<(?:std::vec::)?Vec<.*> as From<\[.*; \d+\]>>::from')
+def vec_from_array(ex, m, a, fr, dest):
+    from .interp import seq_items
+    items, lo, hi = seq_items(a[0])
+    return VecV(list(items[lo:hi]), 'VecDeque' if 'VecDeque' in m.group(0) else 'Vec')
